@@ -134,6 +134,10 @@ func ValidateAttribute(a PathAttributeInterface, rfs map[Family]BGPAddPathMode, 
 	case *PathAttributeNextHop:
 
 		isZero := func(ip net.IP) bool {
+			if len(ip) == 0 {
+				// the attribute was not decoded (malformed length): no address at all
+				return true
+			}
 			res := ip[0] & 0xff
 			return res == 0x00
 		}
